@@ -223,7 +223,7 @@ pub fn def() -> PropDef {
         assumptions: &["reference BEP3 writer/decoder in harness/src/refmodel/wire.rs is trusted"],
         subs: vec![Sub {
             name: "roundtrip",
-            cases: |t| t.pick(200_000, 4_000_000),
+            cases: |t| t.pick(1_000_000, 10_000_000),
             run,
             replay: |v| replay_case::<Case>(v, check),
             min_class: &[("piece", 0.05), ("bitfield", 0.05), ("handshake", 0.05), ("request", 0.05), ("cancel", 0.05), ("have", 0.05)],
